@@ -304,7 +304,9 @@ func cmdCheck(args []string) int {
 				vacPass++
 			}
 		}
-		nOb++
+		if ob.Kind != "bounded" {
+			nOb++
+		}
 		be := ob.Solver
 		if be == "" {
 			be = "none"
@@ -315,7 +317,9 @@ func cmdCheck(args []string) int {
 		byBackend[be]["obligations"]++
 		byBackend[be]["ms"] += ob.Ms
 		if ob.Verdict == "discharged" {
-			nDis++
+			if ob.Kind != "bounded" {
+				nDis++
+			}
 			if len(samples) < 14 {
 				samples = append(samples, map[string]any{"obligation": ob.Name, "kind": ob.Kind, "verdict": ob.Verdict, "backend": ob.Solver, "ms": ob.Ms, "queries": len(ob.Queries), "pos": ob.Pos})
 			}
